@@ -107,6 +107,10 @@ def realise(world, root, fmt):
             if a == 'has':
                 with open(os.path.join(bor, m + ext), 'w') as f:
                     f.write('BORROWED-0-%s' % m)
+    if world.get('pycache_is_a_file'):
+        # byte-compiling any stored module fails (the cache directory cannot be made): the writer fails after the rename
+        with open(os.path.join(dst, '__pycache__'), 'w') as f:
+            f.write('in the way')
     return src, dst, bor
 
 
@@ -212,6 +216,7 @@ def dump_deviations():
             out.append({'text': {m: k}})
         out.append({'searchers': [{'ans': {m: 'fresh'}}]})
         out.append({'borrowers': [{'texts': False, 'ans': {m: 'has'}}]})
+    out.append({'pycache_is_a_file': 1, 'wrerr': ['A', 'B']})
     out.append({'src': {'A0': 'notfound'}, 'borrowers': [{'texts': False, 'ans': {'A': 'has'}}]})
     out.append({'text': {'B': 'synerr'}, 'borrowers': [{'texts': False, 'ans': {'B': 'has'}}]})
     out.append({'text': {'B': 'synerr'}, 'borrowers': [{'texts': True, 'ans': {'B': 'has'}}]})
@@ -250,12 +255,16 @@ class MibDump(object):
     def cases(self, block, tier):
         dev = dump_deviations()[block['d']]
         fmt = block['fmt']
+        if dev.get('pycache_is_a_file') and fmt != 'pysnmp':
+            return
         for req in (['A'], ['B'], ['A', 'B']):
             for o, extra in option_subsets(tier if fmt == 'json' else 'quick'):
                 if fmt != 'json' and (len(o) > 1 or extra):
                     continue
+                if dev.get('pycache_is_a_file') and (o.get('dryRun') or o.get('writeMibs') is False):
+                    continue   # nothing is stored, so nothing is byte-compiled
                 if fmt == 'pysnmp' and not o:
-                    for ex in ([], ['--no-python-compile']):
+                    for ex in ([], ['--no-python-compile']) if not dev.get('pycache_is_a_file') else ([],):
                         w = dict({'n': 2, 'edges': [['A', 'B']], 'req': req, 'used': 1}, **dev)
                         yield {'world': w, 'fmt': fmt, 'extra': ex}
                     continue
